@@ -18,6 +18,8 @@ earlier case keeps its identity and its replay id. They were written after the t
                              distinct combinations (or one more / one less)
   A5 colliding_names       - factors that share their level NAMES, with the same constraint type and k on both
                              (constraints that print alike), and Pin pairs on the first and last trial
+  A7 within_x_transition   - crossing of a within-trial derived factor over uncrossed sources with a transition
+                             factor, unweighted (RandomGen's draw tree: completions of uncrossed sources x preamble)
   A6 nest_outer_transition - Nest whose outer block crosses a transition factor (sustained preamble), its source
                              crossed with it or not, explicit alignment, constraints on either block
 """
@@ -336,9 +338,38 @@ def nest_outer_transition(rng):
     return spec
 
 
-KINDS = {"A6": nest_outer_transition, "A1": multicross_preambles, "A2": preamble_constraints, "A3": nest_outer, "A4": weighted_leftover,
+# A7 ---------------------------------------------------------------------------------------------------
+def within_x_transition(rng):
+    """one crossing of a within-trial derived factor whose sources are outside the crossing with a transition
+    factor (preamble), nothing weighted; small enough for a full draw tree"""
+    spec = _new()
+    _add_basic(rng, spec, "A", 0, nl=2)
+    _add_basic(rng, spec, "B", 1, nl=rng.choice([2, 2, 3]))
+    f = gen.add_derived(rng, spec, "W", "within", deps=rng.choice([["A", "B"], ["B"], ["B", "A"]]), else_level=False)
+    f["levels"] = f["levels"][:2]
+    ks = sorted(f["table"])
+    for k in ks:
+        f["table"][k] = rng.randrange(2)
+    f["table"][ks[0]] = 0
+    f["table"][ks[-1]] = 1
+    _transition(rng, spec, "Tr", rng.choice(["A", "A", "B"]), balanced=rng.random() < 0.8)
+    names = list(spec["order"])
+    crossing = rng.choice([["W", "Tr"], ["W", "Tr"], ["Tr"], ["W"]])
+    cons = []
+    if rng.random() < 0.25:
+        cons.append({"type": "MinimumTrials", "trials": rng.randint(4, 7)})
+    if rng.random() < 0.2:
+        cons.append(gen.gen_constraint(rng, spec, ["A", "B"], 5, types=["AtMostKInARow", "Pin"], boundary=False))
+    design = list(names)
+    if rng.random() < 0.4:
+        rng.shuffle(design)
+    spec["block"] = _cross(design, [crossing], cons, rcc=rng.random() < 0.6)
+    return spec
+
+
+KINDS = {"A7": within_x_transition, "A6": nest_outer_transition, "A1": multicross_preambles, "A2": preamble_constraints, "A3": nest_outer, "A4": weighted_leftover,
          "A5": colliding_names}
-LABEL = {"A6": "A6-nest-outer-transition", "A1": "A1-multicross-preambles", "A2": "A2-preamble-constraints", "A3": "A3-nest-outer",
+LABEL = {"A7": "A7-within-x-transition", "A6": "A6-nest-outer-transition", "A1": "A1-multicross-preambles", "A2": "A2-preamble-constraints", "A3": "A3-nest-outer",
          "A4": "A4-weighted-leftover", "A5": "A5-colliding-names"}
 
 
